@@ -49,8 +49,11 @@ type Result struct {
 	start       time.Time
 }
 
+// ProcessStart is set by the driver before loading so that wall time includes load + SSA.
+var ProcessStart = time.Now()
+
 func New(prop, tier string) *Result {
-	return &Result{Prop: prop, Tier: tier, Analysed: map[string]int{}, start: time.Now()}
+	return &Result{Prop: prop, Tier: tier, Analysed: map[string]int{}, start: ProcessStart}
 }
 
 func (r *Result) add(rule, key, pos, desc, status, detail string) {
